@@ -39,6 +39,12 @@ const char *sched_thread_name(int tid);
 int  sched_thread_state(int tid);    /* 0 runnable 1 blocked 2 done */
 int  sched_thread_why(int tid);
 int  sched_unjoined_lib_threads(void);
+void sched_set_stall(int permille, int64_t max_us);   /* probability (per scheduling point) and bound of a "slow machine" clock step */
+long sched_stalls(void);
+int64_t sched_stall_total_us(void);
+int64_t sched_thread_deadline(int tid);               /* virtual deadline of a blocked thread, -1 = none */
+int  sched_thread_is_lib(int tid);
+extern int sched_idle_jump;
 
 /* pthread replacements used by the redirected c-ares objects */
 int sim_pthread_create(pthread_t *t, const pthread_attr_t *a, void *(*fn)(void *), void *arg);
